@@ -23,11 +23,12 @@ CONSTANTS
   TUnits = {"s"}
   KRegs <- KRegs6
   Outs <- Outs_one
-  Modes = {"inline", "named"}
+  Modes = {"inline", "named", "mixed"}
   EqTemplates = {}
   EqWrongs = {}
   CallKinds <- Calls_none
   MaxCalls = 0
+  Laws = {"mass"}
 INVARIANT RegistryIndependent
 INVARIANT WrittenIsPhysical
 INVARIANT RefusedOnlyIfWrongDimension
